@@ -129,6 +129,16 @@ def run(ctx):
     except OSError:
         ctx.undecide('R16.1', 'cannot read postgres/src/config.rs for the documented statement list')
 
+    # the statement cache lives in the client wrapper and survives recycling: a clean-up script that deallocates the
+    # server side of those statements (DISCARD ALL implies DEALLOCATE ALL) makes every later cache hit fail - unless the
+    # recycle path clears the cache as well
+    clears = [blk for blk in rec.blocks if blk.term.kind == 'call' and not blk.cleanup and blk.term.rcallee and strip_generics(blk.term.rcallee) == SC + '::clear']
+    up = re.sub(r'\s+', ' ', discard.upper())
+    dealloc = [tok for tok in ('DISCARD ALL', 'DEALLOCATE') if tok in up]
+    ctx.ob('R16.1', 'the clean-up script keeps the server side of the cached statements (or recycle clears the cache)', not dealloc or bool(clears), ctx.where(qf),
+           'the script contains %s while recycle() keeps the client-side statement cache: prepare_cached would return statements the server no longer knows' % dealloc if dealloc and not clears else '',
+           construct='discard-sql-deallocates')
+
     # ---- R16.2 cache key = (query, types) -------------------------------------------------------------
     for fn in ('get', 'insert', 'remove'):
         b = B(SC + '::' + fn)
